@@ -834,7 +834,7 @@ class Interp(object):
             v = self.eval(n.operand, fr)
             if isinstance(n.op, ast.Not):
                 if isinstance(v, Unk):
-                    return Unk('not ' + v.why)
+                    return Unk(('not', v.expr))
                 return not self.truth(v, n.operand, fr)
             if isinstance(n.op, ast.USub):
                 if isinstance(v, Obj):
@@ -851,7 +851,9 @@ class Interp(object):
             for e in n.values:
                 v = self.eval(e, fr)
                 if isinstance(v, Unk) or (isinstance(v, Arr) and v.size == 1 and isinstance(v.item(), Unk)):
-                    pending = v if pending is None else Unk('%r %s %r' % (pending, 'and' if is_and else 'or', v))
+                    if isinstance(v, Arr):
+                        v = v.item()
+                    pending = v if pending is None else Unk(('and' if is_and else 'or', pending.expr, v.expr))
                     continue
                 t = self.truth(v, e, fr)
                 if is_and and not t:
@@ -870,7 +872,7 @@ class Interp(object):
                 if isinstance(r, (Unk, Arr)):
                     if len(n.ops) > 1:
                         if isinstance(r, Unk):
-                            result = r if result is True else Unk('%r and %r' % (result, r))
+                            result = r if result is True else Unk(('and', result.expr, r.expr))
                             left = right
                             continue
                         raise self.err('chained comparison of arrays')
